@@ -194,7 +194,8 @@ class PosTerms(Terms):
 
     def of_local(self, l, depth=0):
         ds = self.defs.get(l, [])
-        if len(ds) <= 1 or self.pos is None or depth > 60:
+        is_arg = 1 <= l <= self.body.arg_count
+        if len(ds) == 0 or (len(ds) == 1 and not is_arg) or self.pos is None or depth > 60:
             return Terms.of_local(self, l, depth)
         ub, ui = self.pos
         best = None
